@@ -409,7 +409,19 @@ impl<'a> Ctx<'a> {
                     },
                     Obs::IsTerminated => m.is_terminated() as u64,
                 };
-                if r.res == Res::Obs(v) {
+                // once the last receiver is gone nobody can obtain the buffered values any more; whether the channel
+                // destroys them at that moment or keeps them until the last handle goes is not fixed by any property
+                let alt = if m.rc == 0 && m.sc > 0 {
+                    match what {
+                        Obs::Len => Some(0),
+                        Obs::IsEmpty => Some(1),
+                        Obs::IsFull => Some((m.cap == 0) as u64),
+                        _ => None,
+                    }
+                } else {
+                    None
+                };
+                if r.res == Res::Obs(v) || alt.map_or(false, |x| r.res == Res::Obs(x)) {
                     out.push(adv(st));
                 }
             }
